@@ -126,6 +126,9 @@ DecOK(r) ==
        LET exact == spec.ok /\ spec.p = Len(r.inp) IN
        /\ r.all.res \in {"ok", "err"} /\ (r.all.res = "ok") = exact /\ (exact => r.all.v = spec.v)
        /\ r.alld.res \in {"ok", "err"} /\ (r.alld.res = "ok") = exact /\ (exact => r.alld.v = spec.v)
+  /\ Prop = "C11" =>        \* the consume-everything variant additionally rejects trailing bytes
+       LET exact == spec.ok /\ spec.p = Len(r.inp) IN
+       r.alld.res \in {"ok", "err"} /\ (r.alld.res = "ok") = exact /\ (exact => r.alld.v = spec.v)
   \* ---- C18: skipping agrees with decoding
   /\ Prop = "C18" => /\ r.skip.res \in {"ok", "err"}
                      /\ (r.skip.res = "ok") = spec.ok
@@ -381,8 +384,33 @@ CatOK(r) ==
               [ok |-> TRUE, p |-> 0], [i \in 1..n |-> i])
   IN walk.ok /\ Len(r.steps) = n /\ r.rest = <<>>
 
+(***************************************************************************)
+(* join: Joiner::and and KeyedVec::to_keyed_vec are a given prefix         *)
+(* followed by the encoding (beyond the listed properties)                 *)
+(***************************************************************************)
+JoinOK(r) ==
+  LET n == Len(r.pre) IN
+  /\ r.res = "ok"
+  /\ Len(r.and) >= n /\ SubSeq(r.and, 1, n) = r.pre
+  /\ IsEncodingOf(r.E, r.ty, r.v, SubSeq(r.and, n + 1, Len(r.and)))
+  /\ r.keyed = r.and
+
+(***************************************************************************)
+(* bitcap: a bit sequence whose count exceeds 2^29 - 1 is rejected although *)
+(* all its storage words are present; one at the cap is accepted (C03).    *)
+(* The input is count prefix + payload zero bytes + 3 spare bytes; only    *)
+(* its shape is logged (64 MiB of zeros are not).                          *)
+(***************************************************************************)
+BitCapOK(r) ==
+  LET nb == ToNat(r.nbits) IN
+  /\ r.res \in {"ok", "err"}
+  /\ (r.res = "ok") = (nb <= MaxBits)
+  /\ r.res = "ok" => r.n = r.head + BitWords(nb, r.w) * r.w
+
 RecOK(r) ==
   CASE r.k = "enc" -> EncOK(r)
+    [] r.k = "bitcap" -> BitCapOK(r)
+    [] r.k = "join" -> JoinOK(r)
     [] r.k = "cat" -> CatOK(r)
     [] r.k = "deep" -> DeepOK(r)
     [] r.k = "prog" -> ProgOK(r)
